@@ -65,10 +65,111 @@ func vCovers(req types.PlacementRequirements, own types.Attributes, signed map[s
 
 type vMonC08 struct {
 	res *vs.Result
+	// shadow model of the attestations: "owner|auditor" -> key -> value, built
+	// from the successful sign / delete messages alone (what every auditor
+	// has signed and not revoked); the chain starts without attestations
+	signed map[string]map[string]string
+}
+
+// applyAudit folds the audit messages of a successful tx into the shadow
+// model and compares the stored attestation records with it.
+func (m *vMonC08) applyAudit(h *vHist, o *vTxObs) {
+	if m.signed == nil {
+		m.signed = map[string]map[string]string{}
+	}
+	if !o.OK {
+		return
+	}
+	touched := false
+	kind := ""
+	for _, msg := range o.Msgs {
+		switch x := msg.(type) {
+		case *atypes.MsgSignProviderAttributes:
+			touched, kind = true, "sign"
+			k := x.Owner + "|" + x.Auditor
+			if m.signed[k] == nil {
+				m.signed[k] = map[string]string{}
+			}
+			for _, a := range x.Attributes {
+				m.signed[k][a.Key] = a.Value
+			}
+		case *atypes.MsgDeleteProviderAttributes:
+			touched, kind = true, "delete"
+			k := x.Owner + "|" + x.Auditor
+			if len(x.Keys) == 0 {
+				delete(m.signed, k)
+			} else {
+				for _, key := range x.Keys {
+					delete(m.signed[k], key)
+				}
+				if len(m.signed[k]) == 0 {
+					delete(m.signed, k)
+				}
+				if len(x.Keys) >= 2 {
+					m.res.Count("attestation_delete_several_keys", 1)
+				}
+			}
+		}
+	}
+	if !touched {
+		return
+	}
+	m.res.Count("attestation_model_comparisons", 1)
+	keys := map[string]bool{}
+	for k := range m.signed {
+		keys[k] = true
+	}
+	for k := range o.Post.Audits {
+		keys[k] = true
+	}
+	var ks []string
+	for k := range keys {
+		ks = append(ks, k)
+	}
+	sort.Strings(ks)
+	for _, k := range ks {
+		want := m.signed[k]
+		rec, stored := o.Post.Audits[k]
+		got := map[string]string{}
+		for _, a := range rec.Attributes {
+			got[a.Key] = a.Value
+		}
+		same := stored == (want != nil) && len(got) == len(want)
+		if same {
+			for kk, v := range want {
+				if got[kk] != v {
+					same = false
+				}
+			}
+		}
+		if !same {
+			h.ViolationOnce("attestation:"+k, "attestation-record-equals-signed-minus-revoked", kind,
+				fmt.Sprintf("attestation %s: stored %v (present=%v), signed and not revoked according to the messages: %v", k, rec.Attributes, stored, want))
+		}
+	}
 }
 
 func (m *vMonC08) AfterTx(h *vHist, o *vTxObs) {
 	pre := o.Pre
+	// the attestations in force before this tx, according to the messages
+	signedBefore := map[string]map[string]types.Attributes{}
+	for k, attrs := range m.signed {
+		parts := strings.SplitN(k, "|", 2)
+		var at types.Attributes
+		var names []string
+		for kk := range attrs {
+			names = append(names, kk)
+		}
+		sort.Strings(names)
+		for _, kk := range names {
+			at = append(at, types.Attribute{Key: kk, Value: attrs[kk]})
+		}
+		if signedBefore[parts[0]] == nil {
+			signedBefore[parts[0]] = map[string]types.Attributes{}
+		}
+		signedBefore[parts[0]][parts[1]] = at
+	}
+	m.applyAudit(h, o)
 	if len(o.Msgs) != 1 {
 		return
 	}
@@ -99,11 +200,16 @@ func (m *vMonC08) AfterTx(h *vHist, o *vTxObs) {
 		covers := true
 		shape := "none"
 		if exists && registered {
-			signed := map[string]types.Attributes{}
+			// (from the shadow model, not from the stored records: a revoked
+			// attestation that lingers in the store does not count as signed)
+			signed := signedBefore[msg.Provider]
+			if signed == nil {
+				signed = map[string]types.Attributes{}
+			}
 			for _, k := range vSortedKeysAudit(pre.Audits) {
 				rec := pre.Audits[k]
-				if rec.Owner == msg.Provider {
-					signed[rec.Auditor] = rec.Attributes
+				if _, ok := signed[rec.Auditor]; rec.Owner == msg.Provider && !ok {
+					m.res.Count("stored_attestation_not_in_model", 1)
 				}
 			}
 			req := order.Spec.Requirements
